@@ -25,6 +25,7 @@ type treeNode struct {
 	Bare   bool      `json:"bare"` // declares nothing (such a command can be initialised more than once)
 	Hidden bool      `json:"hidden"`
 	Policy string    `json:"policy"` // "" = inherited; continue | exit | panic = set in the command's initialiser
+	IntMulti bool    `json:"intmulti"` // the Int option is declared multi-valued (IntsOpt)
 	Late   bool      `json:"late"`   // (children of the application only) declared after the earlier runs, before the observed one
 }
 
@@ -162,7 +163,9 @@ func runTree(c treeCase) (r treeResult) {
 			logs[path]["O:"+optKey(o.Names)] = l
 			cmd.Var(cli.VarOpt{Name: o.Names, Value: &rec{flag: o.Flag, log: l}})
 		}
-		if n.IntOpt != "" && !n.Bare {
+		if n.IntOpt != "" && !n.Bare && n.IntMulti {
+			cmd.Ints(cli.IntsOpt{Name: n.IntOpt})
+		} else if n.IntOpt != "" && !n.Bare {
 			ints[path] = cmd.Int(cli.IntOpt{Name: n.IntOpt, Value: -1})
 		}
 		for _, a := range n.Args {
